@@ -506,7 +506,13 @@ fn resume_rule(m: &mut Mdl, pre: &Mdl, c: &Call, r: &mut Rules, exp_rel: &mut BT
         }
     }
     m.store = kept;
-    m.out_n = expected.len() as u32;
+    // C12: every incomplete exchange of the resumed session continues on this connection and counts against
+    // the peer's Receive Maximum - the retransmitted ones and the one whose PUBREL the application still
+    // owes (its PUBLISH is unacknowledged by PUBCOMP) - except those just dropped as oversize
+    m.out_n = m.ids.iter().filter(|(id, o)| matches!(o, Owner::Pub1 | Owner::Pub2 | Owner::Rel | Owner::RelOwed) && !exp_rel.contains(id)).count() as u32;
+    if m.ids.values().any(|o| *o == Owner::RelOwed) {
+        r.label("c12.resume-with-owed-pubrel");
+    }
 }
 
 #[allow(clippy::too_many_arguments)]
@@ -591,6 +597,9 @@ fn on_send(m: &mut Mdl, pre: &Mdl, ap: &AP, c: &Call, r: &mut Rules, exp_rel: &m
                     // refused: the exchange never started; the freshly acquired id must be announced free
                     exp_rel.insert(id);
                     r.label("pub.refused");
+                    if c.errors().contains(&MqttError::ReceiveMaximumExceeded) && pre.st == St::Disc {
+                        r.viol("c12.refused-without-connection", pre, format!("PUBLISH refused with ReceiveMaximumExceeded while disconnected: no peer, no Receive Maximum in force (a limit of the closed connection is still applied): {}", c.describe()));
+                    }
                     if c.errors().contains(&MqttError::ReceiveMaximumExceeded) {
                         r.label("c12.refused-at-limit");
                         if let Some(mx) = m.link.peer_rm {
